@@ -20,20 +20,30 @@ def prop(pid, **kw):
 UNIT_DEPS = {
     'types': [],
     'pow10': ['types'],
+    'core': ['types', 'cmp'],
+    'conv': ['types'],
+    'scale': ['types', 'pow10', 'core'],
+    'canon': ['types', 'core', 'cmp'],
+    'cmp': ['types', 'core', 'scale', 'pow10'],
+    'add': ['core', 'scale', 'conv', 'pow10'],
+    'sub': ['core', 'scale', 'conv', 'pow10', 'add'],
+    'mul': ['core', 'conv', 'canon'],
+    'derived': ['core'],
+    'prim_add': ['add', 'conv'],
+    'prim_sub': ['sub', 'add', 'conv'],
+    'prim_mul': ['mul', 'conv'],
 }
 
 
 def closure(units):
     seen = []
-
-    def go(u):
+    todo = list(units)
+    while todo:
+        u = todo.pop(0)
         if u in seen:
-            return
-        for d in UNIT_DEPS.get(u, []):
-            go(d)
+            continue
         seen.append(u)
-    for u in units:
-        go(u)
+        todo.extend(UNIT_DEPS.get(u, []))
     return seen
 
 
@@ -48,14 +58,27 @@ NOT_APPLICABLE = {
     'C13': 'statement about the real function e^x to one ulp; contracts here are integer-only and the Taylor loop has no termination measure (DESIGN.md section 7)',
     'C17': 'feature-gated code generic over foreign serde traits and strings; no contract within reach (DESIGN.md section 7)',
 }
-for _p in ['C01', 'C02', 'C05', 'C06', 'C07', 'C08', 'C09', 'C10', 'C11', 'C12', 'C14', 'C15', 'C16', 'C19', 'C20']:
+for _p in ['C02', 'C05', 'C06', 'C07', 'C08', 'C09', 'C10', 'C11', 'C12', 'C14', 'C15', 'C16', 'C19', 'C20']:
     NOT_APPLICABLE[_p] = _WIP
 
 _NOTE_COMMON = ('Assumed: num-bigint/num-traits/num-integer contracts (spec/shim_base.rs, vf/shimgen.py), std specs, '
                 'size bound 2^60 on digit vectors, the extractor and its rewrite table; machine arithmetic is NOT treated as mathematical '
                 '(every i64/u64/usize operation carries an overflow obligation).')
 
-prop('C18', units=['pow10'], level='proof',
-     level_text='Verus proves value-exact postconditions for the power-of-ten constructors (all three algorithms of ten_to_the_uint, for every pow) on the real function bodies; more of the property is added as units are built',
+_TECH = 'deductive verification with Verus: requires/ensures/loop invariants spliced onto functions re-extracted from /repo on every run'
+
+prop('C01', units=['add', 'sub', 'mul', 'derived', 'prim_add', 'prim_sub', 'prim_mul', 'core', 'scale', 'pow10', 'conv', 'canon'], level='proof',
+     level_text=('Verus proves, for every operand value and every scale within |s| <= 2^61, that each Add/Sub/Mul/Neg impl and compound '
+                 'assignment (every owned/borrowed/reference-view/BigInt form, every arm of the primitive-integer macros at all ten integer '
+                 'types by value and by reference), double/half/square/cube, abs and the alignment helpers return exactly the mathematical '
+                 'sum/difference/product (integer relation is_sum/is_diff/is_prod over i*10^-s), plus freedom from i64 overflow; '
+                 'not covered: the two Sum impls (Iterator::fold with a closure has no Verus spec)'),
+     level_note=_NOTE_COMMON + ' Verus resolves `x op &y` through the owned impl; every ownership variant carries the same contract and is proved against its own body.',
+     technique=_TECH)
+
+prop('C18', units=['pow10', 'core', 'canon', 'scale'], level='proof',
+     level_text=('Verus proves field-exact postconditions for constructors, accessors and reference views (with the reference view\'s sign/magnitude '
+                 'invariant as a checked type invariant), 10^pow for all three algorithms of ten_to_the_uint and every pow, exact multiplication by the '
+                 'power of ten in scale extension, and normalized(): same value, no trailing zero digit, zero becomes (0,0)'),
      level_note=_NOTE_COMMON,
-     technique='deductive verification with Verus: requires/ensures/loop invariants on mechanically re-extracted functions')
+     technique=_TECH)
